@@ -56,7 +56,8 @@ def Machine.processPrecommitTrace (env : Env) (m : Machine) (v : Vote) : List Tr
       let f := m.vc.hasFuturePrecommitQuorum v.height v.round v.id
       let m := { m with vc := f.1 }
       if f.2 then
-        [(m, [.triggerSync (max (m.lastTriggerSync + 1) m.state.height) (max m.lastQuorum v.height)])]
+        [(m, [.writeWAL (.precommit v),
+              .triggerSync (max (m.lastTriggerSync + 1) m.state.height) (max m.lastQuorum v.height)])]
       else m.processMessageTrace env v.height v.round (.precommit v)
     else m.processMessageTrace env v.height v.round (.precommit v)
 
